@@ -288,6 +288,28 @@ def lookupIsotope (eidx : Index El) (iidx : Index Iso) (q : Query) (number : Opt
         | none => none
     | none => iidx.get? (lower q.str')
 
+/-! ## the registry as state: species constructed after import (round 6) -/
+
+/-- events of a session after import: a call of the public constructor `Element(...)` / `Isotope(...)` -/
+inductive RegEvent
+  | newEl (e : El)
+  | newIso (i : Iso)
+
+/-- the two module-level dictionaries -/
+structure RegState where
+  eidx : Index El
+  iidx : Index Iso
+
+/-- running a constructor body: it writes the index entries `ek` / `ik` (the key expressions the translator finds in
+`__init__`; none in the current source, `elementKeys` / `isotopeKeys` for a self-registering constructor) -/
+def RegState.step (ek : El → List Nat) (ik : Iso → List Nat) (s : RegState) : RegEvent → RegState
+  | .newEl e => { s with eidx := addKeys ek s.eidx e }
+  | .newIso i => { s with iidx := addKeys ik s.iidx i }
+
+/-- a whole history of constructions -/
+def RegState.run (ek : El → List Nat) (ik : Iso → List Nat) (s : RegState) (h : List RegEvent) : RegState :=
+  h.foldl (RegState.step ek ik) s
+
 /-! ## Boolean checks used by the table theorems (evaluated by the kernel on the generated table) -/
 
 def nodupB : List Nat → Bool
